@@ -192,6 +192,8 @@ func emitC13(o *leanOut, repo string) {
 	o.strList("c13_upload", c13Outline(ctlog, "(*LocalBackend).Upload"))
 	o.strList("c13_fetch", c13Outline(ctlog, "(*LocalBackend).Fetch"))
 	o.strList("c13_discard", c13Outline(ctlog, "(*LocalBackend).Discard"))
+	// the key helper of local.go: filepath.Localize plus the refusal of "." (commit 9a1f05e)
+	o.strList("c13_localize", c13Outline(ctlog, "localize"))
 	o.strList("c13_comparefile", c13Outline(ctlog, "compareFile"))
 	// tokens as (word, value) pairs so that Lean's kernel can evaluate the parser (`decide`)
 	toks := c13BufTokens(ctlog, "compareFile")
